@@ -336,10 +336,17 @@ def generate(repo, out_path):
     return h
 
 
-if __name__ == '__main__':
+def main(argv=None):
+    """`/venv/bin/python harness/translate_c20.py [out.v]` writes coq/Gen/C20_Transforms.v from $ELFI_REPO (/repo)."""
     import sys
+    argv = sys.argv[1:] if argv is None else argv
     repo = os.environ.get('ELFI_REPO', '/repo')
-    out = sys.argv[1] if len(sys.argv) > 1 else os.path.join(os.path.dirname(os.path.dirname(os.path.abspath(__file__))),
-                                                              'coq', 'Gen', 'C20_Transforms.v')
+    out = argv[0] if argv else os.path.join(os.path.dirname(os.path.dirname(os.path.abspath(__file__))),
+                                            'coq', 'Gen', 'C20_Transforms.v')
     generate(repo, out)
-    print(open(out).read())
+    print('wrote %s' % out)
+    return 0
+
+
+if __name__ == '__main__':
+    raise SystemExit(main())
